@@ -484,6 +484,13 @@ def timers(cx):
     ok, ne = g.after_edge_must_pass(lambda lits: any(passed(l) for l in lits), lambda b: b in hup, assume=both)
     timeout = any(l[0] == "is" and l[2] is True and l[1][0] == "call" and l[1][1].endswith("pass_election_timeout") for t in selfs if t.fn is te for l in cx.guard_lits(t.site))
     cx.check(ok and ne >= 1 and bool(hup) and timeout, "election:campaign", "tick_election: once the (randomized) timeout has passed on a promotable node, a self-addressed MsgHup is stepped")
+    # (one of the two conditions is tested on every path of the election tick)
+    gte2 = cx.pg(te)
+    cond = lambda l: l[0] == "is" and (is_f(l[1], "RaftCore.promotable") or (l[1][0] == "call" and l[1][1].endswith("pass_election_timeout")))
+    c_tested = {gte2.nodes[n_][0] for n_ in range(len(gte2.nodes)) for _, ls in gte2.edges[n_] or [] if any(cond(l) for l in ls)}
+    if not gte2.truncated:
+        cx.check(bool(c_tested) and all(gte2.dominated_by_block((rb, "term"), lambda b: b in c_tested) for rb in rbs), "election:campaign:every-tick",
+                 "tick_election: the campaign condition is tested on every path")
     pet = cx.fn("Raft::pass_election_timeout")
     rets = cx.pg(pet).returns()
     ok = len(rets) == 1 and rets[0][1][0] == "bin" and rets[0][1] == ("bin", "Le", rets[0][1][2], rets[0][1][3]) and is_f(rets[0][1][2], "RaftCore.randomized_election_timeout") and is_f(rets[0][1][3], "RaftCore.election_elapsed")
@@ -498,6 +505,12 @@ def timers(cx):
     rz = {s.block for s in cx.prog.writes.get("RaftCore.election_elapsed", []) if s.fn is th and "stmt" in s.data and write_value(cx, s) == ("int", 0)}
     ok, ne = g.after_edge_must_pass(lambda lits: any(et(l) for l in lits), lambda b: b in rz)
     cx.check(ok and ne >= 1, "leader:election-reset", "tick_heartbeat: the election counter restarts when it reaches election_timeout")
+    # (the election-timeout test itself is made on every leader tick: nothing returns or branches around it)
+    etb = lambda l: l[0] == "is" and l[1][0] == "bin" and l[1][1] == "Lt" and is_f(l[1][2], "RaftCore.election_elapsed") and is_f(l[1][3], "RaftCore.election_timeout")
+    et_tested = {g.nodes[n_][0] for n_ in range(len(g.nodes)) for _, ls in g.edges[n_] or [] if any(etb(l) for l in ls)}
+    if not g.truncated:
+        cx.check(bool(et_tested) and all(g.dominated_by_block((rb, "term"), lambda b: b in et_tested) for rb in rbh), "leader:election-timeout:every-tick",
+                 "tick_heartbeat: the election-timeout test (lease check, transfer abort) is made on every path")
     ht = lambda l: l[0] == "is" and l[2] is False and l[1][0] == "bin" and l[1][1] == "Lt" and is_f(l[1][2], "RaftCore.heartbeat_elapsed") and is_f(l[1][3], "RaftCore.heartbeat_timeout")
     bb = self_blocks(th, "MsgBeat")
     ok, ne = g.after_edge_must_pass(lambda lits: any(ht(l) for l in lits), lambda b: b in bb)
